@@ -4,6 +4,7 @@ package fix
 
 import (
 	"sort"
+	"strings"
 	"sync"
 	"sync/atomic"
 )
@@ -267,4 +268,174 @@ func FanOutNamed(xs []int64) int64 {
 	}()
 	wg.Wait()
 	return tot
+}
+
+// ---- constructs added after a review of the rewriter ----
+
+var MinZ, MaxZ = 0, 35
+
+func InRange(z int) string {
+	switch {
+	case z < MinZ, z > MaxZ: // package variables in a case expression
+		return "out"
+	default:
+		return "in"
+	}
+}
+
+func scale(wg *sync.WaitGroup, out []float64, i int, f float64, k int64, p *int) {
+	defer wg.Done()
+	out[i] = f * float64(k)
+	_ = p
+}
+
+func TypedGoArgs() []float64 {
+	out := make([]float64, 2)
+	var wg sync.WaitGroup
+	wg.Add(2)
+	go scale(&wg, out, 0, 0.5, 3, nil) // untyped constants and nil as go arguments
+	go scale(&wg, out, 1, 2, 4, nil)
+	wg.Wait()
+	return out
+}
+
+func LabeledComplex(m map[string]map[string]int) int {
+	s := 0
+outer:
+	for k := range m["a"] { // labeled range over a non-trivial operand
+		for range m {
+			if k == "skip" {
+				continue outer
+			}
+			s++
+		}
+	}
+	return s
+}
+
+func keysOf[M ~map[K]V, K comparable, V any](m M) []K {
+	out := make([]K, 0, len(m))
+	for k := range m { // operand is a type parameter
+		out = append(out, k)
+	}
+	return out
+}
+
+func GenericConstraintKeys() []string { return keysOf(map[string]int{"a": 1, "b": 2, "c": 3}) }
+
+var lazyTable []int
+var initLazy = sync.OnceFunc(func() { lazyTable = []int{1, 2, 3} })
+var lazyVal = sync.OnceValue(func() int { return 42 })
+
+func Lazy() int { initLazy(); return len(lazyTable) + lazyVal() }
+
+var guardedCache = struct {
+	sync.Mutex // the mutex lives inside the variable it protects
+	m map[string]int
+}{m: map[string]int{}}
+
+func GuardedGet(k string) int {
+	guardedCache.Lock()
+	defer guardedCache.Unlock()
+	v, ok := guardedCache.m[k]
+	if !ok {
+		v = len(k)
+		guardedCache.m[k] = v
+	}
+	return v
+}
+
+type memo struct {
+	mu sync.Mutex
+	m  map[string]int
+}
+
+func (c *memo) get(k string) int {
+	c.mu.Lock()
+	defer c.mu.Unlock()
+	v, ok := c.m[k]
+	if !ok {
+		v = len(k)
+		c.m[k] = v
+	}
+	return v
+}
+
+var memoCache = &memo{m: map[string]int{}}
+
+func MemoGet(k string) int { return memoCache.get(k) }
+
+type shard struct {
+	mu sync.Mutex
+	m  map[string]int
+}
+
+var shards [4]shard
+
+func ShardGet(k string) int {
+	i := len(k) % len(shards)
+	shards[i].mu.Lock()
+	defer shards[i].mu.Unlock()
+	if shards[i].m == nil {
+		shards[i].m = map[string]int{}
+	}
+	v, ok := shards[i].m[k]
+	if !ok {
+		v = len(k)
+		shards[i].m[k] = v
+	}
+	return v
+}
+
+func FieldsPerGoroutine() (int, int) {
+	var parts struct{ h, v []int }
+	var wg sync.WaitGroup
+	wg.Add(2)
+	go func() { defer wg.Done(); parts.h = []int{1} }()
+	go func() { defer wg.Done(); parts.v = []int{1, 2} }()
+	wg.Wait()
+	return len(parts.h), len(parts.v)
+}
+
+func ImpureIndex() int {
+	out := make([]int, 4)
+	var next int64 = -1
+	var wg sync.WaitGroup
+	for i := 0; i < 4; i++ {
+		wg.Add(1)
+		go func(v int) { defer wg.Done(); out[atomic.AddInt64(&next, 1)] = v + 1 }(i)
+	}
+	wg.Wait()
+	s := 0
+	for _, x := range out {
+		s += x
+	}
+	return s
+}
+
+type worker struct{ n int }
+
+func (w *worker) run(wg *sync.WaitGroup) { defer wg.Done(); w.n++ }
+
+func MethodValueGo() int {
+	w := &worker{}
+	var wg sync.WaitGroup
+	wg.Add(1)
+	go w.run(&wg)
+	w = &worker{n: 100} // the receiver of the go statement was evaluated before this
+	wg.Wait()
+	return w.n
+}
+
+var replacer = strings.NewReplacer("a", "b") // builds itself lazily under its own sync.Once
+
+func Replace(s string) string { return replacer.Replace(s) }
+
+var limits []int
+
+func GuardedIndex(i int) int {
+	if i < len(limits) && limits[i] > 0 { // the hook before this statement must not index out of range
+		return limits[i]
+	}
+	return -1
 }
